@@ -295,7 +295,10 @@ func (d *CntDriver) Step(x *Exec, n *Node, i int) StepResult {
 	if obs.Halt {
 		outcome = "HALT"
 	}
-	if obs.Halt != expHalt {
+	// deleting an id that is not live: the statement fixes no outcome (silent success today, the method's own
+	// comment speaks of a NotFound panic), only that nothing happens
+	free := o.kind == "delete" && !m.c[o.i].live && alpha
+	if obs.Halt != expHalt && !free {
 		return viol("outcome", fmt.Sprintf("expected halt=%v got halt=%v fault=%q", expHalt, obs.Halt, obs.Fault), where)
 	}
 	changed := len(DiffDumps(w.FullDump(layer), w.FullDump(next))) > 0
@@ -319,6 +322,7 @@ func (d *CntDriver) Step(x *Exec, n *Node, i int) StepResult {
 	rd := func(method string, args ...any) Obs { return w.Read(next, nn.H, nn.TS, h, method, args...) }
 	notFound := func(o Obs) bool { return !o.Halt && strings.Contains(o.Fault, containerconst.NotFoundError) }
 	var liveAll []string
+	var soft []*Violation
 	liveBy := map[int][]string{}
 	for j := 0; j < 4; j++ {
 		r := nm.c[j]
@@ -364,6 +368,25 @@ func (d *CntDriver) Step(x *Exec, n *Node, i int) StepResult {
 			for name, x := range map[string]Obs{"get": g, "owner": ow, "alias": al, "eACL": ea} {
 				if !notFound(x) {
 					return viol("not-found", fmt.Sprintf("%s(c%d) on a non-live id: halt=%v %v %q", name, j, x.Halt, x.Stack, x.Fault), where)
+				}
+			}
+		}
+		// a container deleted in this step: no other domain it was ever named after may still carry its id
+		// (the model mirrors what the contract leaves behind, so this is reported softly and the path goes on)
+		if r.dead && m.c[j].live {
+			id58 := base58.Encode(d.cids[j])
+			for dom, dd := range nm.doms {
+				if dom == m.c[j].alias || m.now >= dd.exp {
+					continue
+				}
+				for _, rc := range dd.recs {
+					if rc != id58 {
+						continue
+					}
+					rr := w.Read(next, nn.H, nn.TS, nnsH, "getRecords", dom, int64(16))
+					if rr.Halt && strings.Contains(fmt.Sprint(rr.Stack[0]), Hx([]byte(id58))) {
+						soft = append(soft, Viol("alias-record-left", fmt.Sprintf("after delete(c%d) the domain %s, an earlier name of the container, still resolves to it: %v", j, dom, rr.Stack), map[string]any{"op": o.kind, "container": j, "earlier_alias": true}))
+					}
 				}
 			}
 		}
@@ -451,5 +474,5 @@ func (d *CntDriver) Step(x *Exec, n *Node, i int) StepResult {
 		return viol("raw-scan", fmt.Sprintf("x=%d o=%d d=%d eACL=%d alias=%d m=%d; model live=%d dead=%d eacl=%d alias=%d meta=%d", cntX, cntO, cntD, cntE, cntA, cntM, len(liveAll), wD, wE, wA, wM), where)
 	}
 	nn.M = nm
-	return StepResult{Next: nn, Outcome: outcome, Changed: changed}
+	return StepResult{Next: nn, Outcome: outcome, Changed: changed, Soft: soft}
 }
